@@ -250,7 +250,8 @@ def run(ctx, env):
                 if not (on_true or on_false) or (on_true and on_false):
                     continue
                 okg = False
-                if ge[0] == "call" and ge[2] is not None and ge[2].npath in ("std::option::Option::is_none",) and on_false:
+                if ge[0] == "call" and ge[2] is not None and (ge[2].npath in ("std::option::Option::is_none",) or re.search(r"^(std|alloc)::(vec::Vec|collections::(BTreeMap|VecDeque|btree_map::BTreeMap))(<.*>)?::is_empty$", ge[2].npath)) and on_false:
+                    # skip-if-None and skip-if-empty of the very field: what is left out is a value that holds nothing
                     garg = peel(ge[3][0])
                     okg = garg[0] == "field" and garg[2] == vname and peel(garg[1]) == ("arg", 1)
                 ctx.ob("R16.2", tname, "emitted-unless-None:%s" % vname, okg,
